@@ -470,6 +470,10 @@ class Tr:
                 return ("lit", ("str", v))
             if v is None:
                 return ("lit", ("none",))
+            if self.orch and isinstance(v, float):
+                # round 7: a float literal is the external CONSTANT `float:<repr>` (PyLite has no floats; the theorem says what
+                # it stands for, e.g. `0.0` = 0 units)
+                return ("ext", "float:" + repr(v), [])
             raise TranslationError(f"unsupported constant {v!r}")
         if isinstance(e, ast.JoinedStr):
             return ("lit", ("str", OPAQUE_STR))
